@@ -130,27 +130,10 @@ def run(R, tier):
     b = u.body(TK + "read_arbitrary_data")
     R.check(not any(c.name.endswith("is_ascii") for c in b.calls()), "R04.4", "read_arbitrary_data:8-bit", "block payload is not restricted to ASCII", "block data must be 8-bit clean", where=b.span)
 
-    # ---- R04.5 block length dataflow -------------------------------------------------------------------------------------------
-    S = sym.Sym(b.mir)
-    parses = [c for c in b.calls() if c.name.startswith("lexical_core::parse")]
-    gets = [c for c in b.calls() if c.name.split("::")[-1] == "get"]
-    ok = len(parses) == 1 and parses[0].name == "lexical_core::parse" and parses[0].gargs()[:1] == ["usize"]
-    detail = ""
-    if ok:
-        # payload slice = chars.as_slice().get(0..payload_len) with payload_len = the parsed header value
-        pay = []
-        for g in gets:
-            e = sym.norm(S.operand(g.args[1]))
-            if e[0] == "aggr" and e[2].endswith("Range") and "lexical_core::parse" in repr(e[4][1]) and e[4][0][:2] == ("int", 0):
-                pay.append(g)
-        toks = []
-        for bi in b.mir.live_blocks():
-            for st in b.mir.blocks[bi]["stmts"]:
-                if st["k"] == "assign" and st["rv"]["k"] == "aggr" and st["rv"].get("variant") == "ArbitraryBlockData":
-                    toks.append(sym.norm(S.operand(st["rv"]["fields"][0])))
-        ok = len(pay) == 1 and any("lexical_core::parse" in repr(t) for t in toks)
-        detail = "payload gets %d tokens %s" % (len(pay), [sym.show(t)[:60] for t in toks])
-    R.check(ok, "R04.5", "read_arbitrary_data:length", "the payload is chars[0..n] with n = the decimal value of the header's length digits", "definite-length block: payload must be exactly the announced number of bytes (%s)" % detail, where=b.span)
+    # R04.5 (a dataflow rule that looked for `chars[0..n]` with n parsed from the header's digits) was retired: it recognised one
+    # way of writing the reader and reported behaviour-preserving rewrites with split_at / sub-slices (round-5 refactorings);
+    # the block rows of the whole-element tables (R04.8: #0 / #1n / #2nn forms, exact, short and long payloads, stray bytes)
+    # decide the same clause by value.
 
     # ---- R04.6 radix table and exact values (shared with C09/R09.8): named rows of the element tables -------------------------
     # (Earlier this rule read the radix from the generic arguments of a lexical-core call; the reader now scans and
